@@ -28,7 +28,8 @@ from .model import AnalysisError, Repo
 
 
 class Mutant:
-    def __init__(self, name, kind, file, func, find, replace, rule=None, count=1, note=""):
+    def __init__(self, name, kind, file, func, find, replace, rule=None, count=1, note="", base=None):
+        self.base = base  # id of a behaviour-preserving refactor under /verif/seeded that is applied first (stacked variant)
         self.name = name
         self.kind = kind  # fault | neutral
         self.file = file  # relative to repo root
@@ -110,6 +111,13 @@ def _run_one(args):
     d = make_scratch(repo_root)
     t0 = time.time()
     try:
+        if getattr(m, "base", None):
+            import subprocess
+            pp = os.path.join(os.path.dirname(os.path.dirname(os.path.abspath(__file__))), "seeded", m.base, "patch.diff")
+            r = subprocess.run(["patch", "-p1", "-s", "-d", d, "-i", pp], capture_output=True, text=True)
+            if r.returncode != 0:
+                return {"name": m.name, "kind": m.kind, "status": "inapplicable", "why": "base refactor %s does not apply: %s" % (
+                    m.base, (r.stdout + r.stderr).strip()[:120])}
         why = apply_mutant(d, m)
         if why is not None:
             return {"name": m.name, "kind": m.kind, "status": "inapplicable", "why": why}
